@@ -31,6 +31,7 @@ type Clause struct {
 }
 
 type FuncContract struct {
+	FreshResult bool
 	TrustedFor []string // properties the trusted flag was tagged with (empty: all)
 	Pkg      string // package path ("" for external specs: name is absolute)
 	Name     string // RelString name
@@ -136,7 +137,7 @@ type Contracts struct {
 	Errors []string
 }
 
-var clauseRe = regexp.MustCompile(`^(requires|hypothesis|ensures|xensures|invariant|decreases|assert|assume|modifies|trusted|pure|inline|noinline|nullable|maypanic|nopanic|let|set|init|specialize|assign)\b(\[[A-Za-z0-9, ]*\])?\s*(.*)$`)
+var clauseRe = regexp.MustCompile(`^(requires|hypothesis|ensures|xensures|invariant|decreases|assert|assume|modifies|trusted|freshresult|pure|inline|noinline|nullable|maypanic|nopanic|let|set|init|specialize|assign)\b(\[[A-Za-z0-9, ]*\])?\s*(.*)$`)
 var topRe = regexp.MustCompile(`^(func|ghost|spec|axiom|lemma|iface|only|maprange|globalconst)\b(\[[A-Za-z0-9, ]*\])?\s*(.*)$`)
 
 func parseProps(s string) []string {
@@ -393,6 +394,9 @@ func (cs *Contracts) parseFile(fname, pkg, prefix string) {
 		case "maypanic":
 			t := true
 			cur.MayPanic = &t
+		case "freshresult":
+			// slice / pointer results are newly allocated and referenced by nobody else
+			cur.FreshResult = true
 		case "nopanic":
 			f := false
 			cur.MayPanic = &f
